@@ -22,6 +22,18 @@ pub trait Scenario: Sync {
     fn enumerate(&self, _tier: Tier, _seed: u64, _st: &mut Stats) -> Vec<(Violation, J)> {
         vec![]
     }
+    /// the case of seeded run `run`, generated but not executed, complete with the schedule policy
+    /// (so that `eval` on it does what `one_run` would have done); used when a run kills its process
+    fn case_for_run(&self, seed: u64, run: u64, tier: Tier) -> J;
+    /// the case behind index `idx` of the enumeration stage, if the scenario has one
+    fn enumerate_case(&self, _tier: Tier, _seed: u64, _idx: u64) -> Option<J> {
+        None
+    }
+    /// minimisation with an evaluation function supplied by the caller (evaluation in a
+    /// subprocess for cases that crash or hang the process that evaluates them)
+    fn minimise_ext(&self, case: &J, _sig: &str, _eval: &dyn Fn(&J) -> Vec<Violation>, _budget: usize) -> J {
+        case.clone()
+    }
 }
 
 struct Sink;
@@ -84,13 +96,17 @@ pub fn run_check(sc: &dyn Scenario, tier: Tier) -> Report {
     let nlog = if std::env::var("VERIF_RUNS").is_ok() { (n / 8).max(1) } else { sc.log_runs(tier) };
 
     // pass A: no logger installed
+    crate::watch::set_stage(crate::watch::STAGE_MAIN);
     let (mut st, mut fails) = run_batch(n, |run, st| sc.one_run(seed, run, tier, st).0);
     st.add("runs_pass_nolog", n);
     // deterministic enumerations (no logger)
+    crate::watch::set_stage(crate::watch::STAGE_ENUM);
     let mut enum_fails = sc.enumerate(tier, seed, &mut st);
     // pass B: Trace-level logger formatting every record
+    crate::watch::set_stage(crate::watch::STAGE_LOG);
     enable_trace_logger();
     let (st_b, fails_b) = run_batch(nlog, |run, st| sc.one_run(seed, LOG_RUN_OFFSET + run, tier, st).0);
+    crate::watch::set_stage(crate::watch::STAGE_OTHER);
     let logged = LOGGED.load(std::sync::atomic::Ordering::Relaxed);
     st.merge(st_b);
     st.add("runs_pass_tracelog", nlog);
@@ -115,6 +131,7 @@ pub fn run_check(sc: &dyn Scenario, tier: Tier) -> Report {
         let mut files: Vec<_> = rd.filter_map(|e| e.ok()).map(|e| e.path()).filter(|p| p.extension().map_or(false, |x| x == "json")).collect();
         files.sort();
         for f in files {
+            crate::watch::enter_stage(crate::watch::STAGE_REGRESS, regress_files);
             regress_files += 1;
             let Ok(txt) = std::fs::read_to_string(&f) else { continue };
             let Ok(v) = serde_json::from_str::<J>(&txt) else {
@@ -126,6 +143,7 @@ pub fn run_check(sc: &dyn Scenario, tier: Tier) -> Report {
             }
         }
     }
+    crate::watch::leave();
     st.add("regress_replays", regress_files);
     for (run, viols) in &fails {
         if cx.reported.values().filter(|p| !p.is_empty()).count() >= MAX_REPORTED {
@@ -316,4 +334,347 @@ pub fn run_replay(path: &str, scenarios: &[&dyn Scenario]) -> i32 {
         println!("replay of {} held: no violation of {}", path, prop);
     }
     code
+}
+
+// ---------------------------------------------------------------------------------------------
+// Supervisor: the check, and every replay, runs in a child process; a child that dies abnormally
+// (stack overflow, refused allocation, watchdog abort of a run that does not end) is turned into
+// a violation with a confirmed replay file (see watch.rs).
+// ---------------------------------------------------------------------------------------------
+
+pub enum ChildEnd {
+    Exit(i32),
+    Signal(i32),
+    WallTimeout,
+}
+
+pub fn single_case_cpu_limit_s() -> u64 {
+    std::env::var("DLTSIM_CPU_LIMIT").ok().and_then(|s| s.parse().ok()).unwrap_or(3 * crate::watch::hang_cpu_limit_s())
+}
+
+fn signal_name(s: i32) -> String {
+    match s {
+        4 => "SIGILL".into(),
+        6 => "SIGABRT".into(),
+        7 => "SIGBUS".into(),
+        8 => "SIGFPE".into(),
+        9 => "SIGKILL".into(),
+        11 => "SIGSEGV".into(),
+        24 => "SIGXCPU".into(),
+        n => format!("signal{}", n),
+    }
+}
+
+/// clause a process crash / a run that does not end violates, per property
+fn crash_clause(prop: &str, hang: bool) -> &'static str {
+    match (prop, hang) {
+        ("C03", _) => "C03.a",
+        ("C04", false) => "C04.a",
+        ("C04", true) => "C04.e",
+        ("C05", _) => "C05.a",
+        ("C06", _) => "C06.c",
+        ("C07", _) => "C07.c",
+        ("C08", false) => "C08.c",
+        ("C08", true) => "C08.d",
+        ("C10", _) => "C10.a",
+        ("C12", false) => "C12.b",
+        ("C12", true) => "C12.c",
+        ("C16", _) => "C16.a",
+        _ => "C00.x",
+    }
+}
+
+fn crash_sig(prop: &str, end: &ChildEnd, hang_flag: bool) -> (String, String) {
+    let hang = hang_flag || matches!(end, ChildEnd::WallTimeout | ChildEnd::Signal(24));
+    let clause = crash_clause(prop, hang).to_string();
+    if hang {
+        (clause.clone(), format!("{}:hang/cpu-limit", clause))
+    } else {
+        let name = match end {
+            ChildEnd::Signal(s) => signal_name(*s),
+            _ => "?".into(),
+        };
+        (clause.clone(), format!("{}:process-crash/{}", clause, name))
+    }
+}
+
+/// run this executable again with `args`; stdout is inherited or captured
+fn run_child(args: &[String], envs: &[(&str, String)], capture: bool, wall_limit_s: u64) -> (ChildEnd, String) {
+    use std::os::unix::process::ExitStatusExt;
+    use std::process::{Command, Stdio};
+    let exe = match std::env::current_exe() {
+        Ok(e) => e,
+        Err(_) => return (ChildEnd::Exit(2), String::new()),
+    };
+    let mut cmd = Command::new(exe);
+    cmd.args(args);
+    for (k, v) in envs {
+        cmd.env(k, v);
+    }
+    if capture {
+        cmd.stdout(Stdio::piped()).stderr(Stdio::piped());
+    }
+    let Ok(mut child) = cmd.spawn() else { return (ChildEnd::Exit(2), String::new()) };
+    let mut out = String::new();
+    // drain the pipes on helper threads so that a chatty child cannot block
+    let h_out = child.stdout.take().map(|mut o| {
+        std::thread::spawn(move || {
+            let mut s = String::new();
+            let _ = std::io::Read::read_to_string(&mut o, &mut s);
+            s
+        })
+    });
+    let h_err = child.stderr.take().map(|mut o| {
+        std::thread::spawn(move || {
+            let mut s = String::new();
+            let _ = std::io::Read::read_to_string(&mut o, &mut s);
+            s
+        })
+    });
+    let t0 = Instant::now();
+    let status = loop {
+        match child.try_wait() {
+            Ok(Some(st)) => break Some(st),
+            Ok(None) => {
+                if wall_limit_s > 0 && t0.elapsed().as_secs() > wall_limit_s {
+                    let _ = child.kill();
+                    let _ = child.wait();
+                    break None;
+                }
+                std::thread::sleep(std::time::Duration::from_millis(if t0.elapsed().as_millis() < 200 { 1 } else { 20 }));
+            }
+            Err(_) => break None,
+        }
+    };
+    if let Some(h) = h_out {
+        out.push_str(&h.join().unwrap_or_default());
+    }
+    if let Some(h) = h_err {
+        out.push_str(&h.join().unwrap_or_default());
+    }
+    let end = match status {
+        None => ChildEnd::WallTimeout,
+        Some(st) => match (st.code(), st.signal()) {
+            (Some(c), _) => ChildEnd::Exit(c),
+            (None, Some(s)) => ChildEnd::Signal(s),
+            _ => ChildEnd::Exit(2),
+        },
+    };
+    (end, out)
+}
+
+fn scratch_file(tag: &str) -> String {
+    let root = if std::path::Path::new("/dev/shm").is_dir() { std::path::PathBuf::from("/dev/shm") } else { std::env::temp_dir() };
+    root.join(format!("dltsim-{}-{}", tag, std::process::id())).to_string_lossy().into_owned()
+}
+
+/// evaluate a materialised case in a fresh process: a violation iff that process dies abnormally
+fn eval_in_subprocess(prop: &str, case: &J, cpu_limit_s: u64) -> Vec<Violation> {
+    let tmp = scratch_file("evalcase");
+    if std::fs::write(&tmp, serde_json::to_string(case).unwrap_or_default()).is_err() {
+        return vec![];
+    }
+    let (end, _) = run_child(&["replay-child".into(), tmp.clone()], &[("VERIF_QUIET", "1".into()), ("DLTSIM_CPU_LIMIT", cpu_limit_s.to_string())], true, 20 * cpu_limit_s + 60);
+    let _ = std::fs::remove_file(&tmp);
+    match end {
+        ChildEnd::Exit(_) => vec![],
+        e => {
+            let (clause, sig) = crash_sig(prop, &e, false);
+            vec![Violation { clause, sig, detail: "the evaluating process died".into() }]
+        }
+    }
+}
+
+/// `dltsim check` as the user calls it: run the real check in a child; pass its verdict through,
+/// or — if it died — find the run that kills it and report that.
+pub fn supervise_check(sc: &dyn Scenario, tier: Tier) -> i32 {
+    let prop = sc.prop();
+    let journal = scratch_file(&format!("journal-{}", prop));
+    let _ = std::fs::remove_file(&journal);
+    let t0 = Instant::now();
+    let (end, _) = run_child(&["check-child".into(), prop.into(), tier.name().into()], &[("DLTSIM_JOURNAL", journal.clone())], false, 0);
+    let code = match end {
+        ChildEnd::Exit(c) => c,
+        end => handle_dead_child(sc, tier, &journal, end, t0),
+    };
+    let _ = std::fs::remove_file(&journal);
+    code
+}
+
+fn handle_dead_child(sc: &dyn Scenario, tier: Tier, journal: &str, end: ChildEnd, t0: Instant) -> i32 {
+    let prop = sc.prop();
+    let seed = seed_from_env();
+    let (mut inflight, started) = crate::watch::read_journal(journal);
+    let how = match &end {
+        ChildEnd::Signal(s) => signal_name(*s),
+        _ => "timeout".into(),
+    };
+    println!("[{}] the check process died ({}) after starting {} runs; {} run(s) were in flight: re-executing each in a fresh process", prop, how, started, inflight.len());
+    inflight.sort_by_key(|c| !c.hang);
+    let dir = verif_dir().join("replays").join(prop);
+    let _ = std::fs::create_dir_all(&dir);
+    let mut found: Option<(crate::watch::InFlight, String, ChildEnd)> = None;
+    for c in &inflight {
+        if c.stage == crate::watch::STAGE_OTHER {
+            continue;
+        }
+        let file = dir.join(format!("inflight-{}-{}.json", c.stage, c.run)).to_string_lossy().into_owned();
+        let (e, _) = run_child(
+            &["probe".into(), prop.into(), tier.name().into(), c.stage.to_string(), c.run.to_string(), file.clone()],
+            &[("VERIF_QUIET", "1".into())],
+            true,
+            20 * single_case_cpu_limit_s() + 120,
+        );
+        match e {
+            ChildEnd::Exit(_) => {
+                let _ = std::fs::remove_file(&file);
+            }
+            e => {
+                found = Some((c.clone(), file, e));
+                break;
+            }
+        }
+    }
+    let Some((c, file, e)) = found else {
+        println!("HARNESS-ERROR: the check process died ({}) but none of the {} in-flight runs kills a fresh process; see stderr above", how, inflight.len());
+        return 2;
+    };
+    let (clause, sig) = crash_sig(prop, &e, c.hang);
+    let is_hang = sig.contains(":hang/");
+    let Ok(txt) = std::fs::read_to_string(&file) else {
+        println!("HARNESS-ERROR: probe of stage {} run {} left no case file", c.stage, c.run);
+        return 2;
+    };
+    let _ = std::fs::remove_file(&file);
+    let Ok(case) = serde_json::from_str::<J>(&txt) else {
+        println!("HARNESS-ERROR: case file of stage {} run {} does not parse", c.stage, c.run);
+        return 2;
+    };
+    let detail0 = if is_hang {
+        format!("stage {} run {} (seed {}): the run does not finish (CPU budget of {} s for one run exhausted)", c.stage, c.run, seed, crate::watch::hang_cpu_limit_s())
+    } else {
+        format!("stage {} run {} (seed {}): executing the run kills the process ({})", c.stage, c.run, seed, match &e { ChildEnd::Signal(s) => signal_name(*s), _ => "timeout".into() })
+    };
+    let known = load_known();
+    if let Some(k) = known_match(&known, prop, &sig) {
+        println!("KNOWN-FINDING: property={} {} [{}]", prop, k.what, sig);
+        println!("HARNESS-ERROR: a known finding kills the check process; the rest of the batch was not explored");
+        return 2;
+    }
+    // minimise with evaluation in subprocesses; a hanging case costs its CPU limit per evaluation
+    let (cpu, budget) = if is_hang { (5u64, 10usize) } else { (single_case_cpu_limit_s(), 400usize) };
+    let ev = |x: &J| eval_in_subprocess(prop, x, cpu);
+    let min = sc.minimise_ext(&case, &sig, &ev, budget);
+    let fin = if ev(&min).iter().any(|v| v.sig == sig) { min } else { case.clone() };
+    let mut body = fin.clone();
+    body["violation"] = json!({"property": prop, "signature": sig, "detail": detail0});
+    let path = write_replay(prop, &body);
+    let code = match replay_in_fresh_process(&path) {
+        Ok(sigs) if sigs.iter().any(|s| *s == sig) => {
+            println!("VIOLATION property={} replay={}", prop, path);
+            println!("  clause/signature: {}", sig);
+            println!("  detail: {}", detail0);
+            1
+        }
+        Ok(sigs) => {
+            println!("HARNESS-ERROR: replay {} did not reproduce {} in a fresh process (got {:?})", path, sig, sigs);
+            2
+        }
+        Err(e) => {
+            println!("HARNESS-ERROR: could not run replay: {}", e);
+            2
+        }
+    };
+    // the child died before it could write its evidence: say what is known
+    let ev = json!({
+        "property_id": prop,
+        "tier": tier.name(),
+        "seed": seed,
+        "level": sc.evidence(tier, seed).level,
+        "coverage": {
+            "evaluations": started,
+            "distinct_nontrivial": 0,
+            "rule": "the check process died while executing a run (crash or hang); evaluations = runs started according to the journal, distinctness was not measured because the counters died with the process",
+            "samples": [fin],
+            "exhaustive": false,
+            "process_death": {"how": how, "in_flight": inflight.iter().map(|c| json!({"stage": c.stage, "run": c.run, "hang_flag": c.hang})).collect::<Vec<_>>(), "signature": sig, "clause": clause},
+        },
+        "assumptions": ["the batch was cut short by the death of the process; only the run that kills it is reported"],
+        "wall_s": (t0.elapsed().as_secs_f64() * 1000.0).round() / 1000.0,
+        "violations": if code == 1 { 1 } else { 0 },
+    });
+    let edir = verif_dir().join("evidence");
+    let _ = std::fs::create_dir_all(&edir);
+    let _ = std::fs::write(edir.join(format!("{}.json", prop)), serde_json::to_string_pretty(&ev).unwrap_or_default());
+    println!("[{}] runs_started={} violations={} (process death: {})", prop, started, if code == 1 { 1 } else { 0 }, how);
+    code
+}
+
+/// `dltsim probe <ID> <tier> <stage> <run> <file>`: regenerate one run, write its case to `file`
+/// *before* executing it, then execute it.
+pub fn run_probe(args: &[String], scenarios: &[&dyn Scenario]) -> i32 {
+    let (Some(id), Some(tier), Some(stage), Some(run), Some(file)) = (args.first(), args.get(1), args.get(2), args.get(3), args.get(4)) else {
+        println!("usage: dltsim probe <ID> <tier> <stage> <run> <file>");
+        return 2;
+    };
+    let Some(sc) = scenarios.iter().find(|s| s.prop() == id) else { return 2 };
+    let tier = if tier == "thorough" { Tier::Thorough } else { Tier::Quick };
+    let stage: u64 = stage.parse().unwrap_or(0);
+    let run: u64 = run.parse().unwrap_or(0);
+    let seed = seed_from_env();
+    let mut case = match stage {
+        crate::watch::STAGE_MAIN => sc.case_for_run(seed, run, tier),
+        crate::watch::STAGE_LOG => {
+            let mut c = sc.case_for_run(seed, LOG_RUN_OFFSET + run, tier);
+            c["logger"] = json!(true);
+            c
+        }
+        crate::watch::STAGE_ENUM => match sc.enumerate_case(tier, seed, run) {
+            Some(c) => c,
+            None => return 0,
+        },
+        crate::watch::STAGE_REGRESS => {
+            let mut files: Vec<_> = match std::fs::read_dir(verif_dir().join("regress").join(sc.prop())) {
+                Ok(rd) => rd.filter_map(|e| e.ok()).map(|e| e.path()).filter(|p| p.extension().map_or(false, |x| x == "json")).collect(),
+                Err(_) => vec![],
+            };
+            files.sort();
+            match files.get(run as usize).and_then(|f| std::fs::read_to_string(f).ok()).and_then(|t| serde_json::from_str::<J>(&t).ok()) {
+                Some(c) => c,
+                None => return 0,
+            }
+        }
+        _ => return 0,
+    };
+    if case.get("logger").is_none() {
+        case["logger"] = json!(false);
+    }
+    if std::fs::write(file, serde_json::to_string_pretty(&case).unwrap_or_default()).is_err() {
+        return 2;
+    }
+    if case["logger"].as_bool().unwrap_or(false) {
+        enable_trace_logger();
+    }
+    let prop = sc.prop();
+    let viols = sc.eval(&case);
+    if viols.iter().any(|x| x.clause.starts_with(prop)) {
+        1
+    } else {
+        0
+    }
+}
+
+/// `dltsim replay <file>` as the user calls it: evaluate in a child; a child that dies is a violation.
+pub fn supervise_replay(path: &str) -> i32 {
+    let (end, _) = run_child(&["replay-child".into(), path.into()], &[], false, 20 * single_case_cpu_limit_s() + 120);
+    match end {
+        ChildEnd::Exit(c) => c,
+        e => {
+            let prop = std::fs::read_to_string(path).ok().and_then(|s| serde_json::from_str::<J>(&s).ok()).and_then(|v| v["property"].as_str().map(String::from)).unwrap_or_default();
+            let (_, sig) = crash_sig(&prop, &e, false);
+            println!("REPLAY-VIOLATION sig={} detail=the process evaluating this case died", sig);
+            println!("VIOLATION property={} replay={}", prop, path);
+            1
+        }
+    }
 }
